@@ -1,4 +1,5 @@
 import Got.Lemmas.CodecRoundtrip
+import Got.Lemmas.CodecAstBytes
 /-
 C11 — the iox codec round-trips every value and keeps the little-endian / LEB128 wire format.
 
@@ -168,3 +169,178 @@ theorem C11_spec_le_inverse (w n : Nat) : leValue (leBytes w n) = n % 256 ^ w :=
     have e : (BitVec.ofNat 8 (n % 256)).toNat = n % 256 := by simp
     simp only [leBytes, leValue, ih, e]
     rw [Nat.pow_succ, Nat.mul_comm (256 ^ w) 256, Nat.mod_mul]
+/-! ## the translated source (translator tie)
+
+`Got.Generated.AstIox` holds the MiniGoBytes terms (Got/Model/MiniGoBytes.lean) that tools/srcfacts/minigo_codec.go regenerates
+from /repo/iox/octets_*.go on every run (go/ast + go/types); `run table "<Type>.<Method>" fuel args st` interprets the
+generated term of a method on the stream `st = ⟨buffer, position, alloc⟩`.  The theorems below are therefore re-checked
+against what the code says now: each states that the interpreted *generated* term does exactly what the model function
+used by all other C11 theorems does — for every argument value, every stream content and every fuel above a small
+constant (fuel only bounds the number of statements executed).  `writeOut st bs` = returns `nil`, `bs` appended to the
+buffer; `readOut enc zero st r` = returns the model's value / error and moves to the model's position (`crash` = panic). -/
+
+open Got.Generated.AstIox in
+/-- The translator accepted every method of OctetsStream / OctetsWriter / OctetsReader it is pointed at: every construct of
+    the current source is inside the MiniGoBytes fragment (otherwise the generated body is empty and the note names the
+    construct). -/
+theorem C11_translation_in_fragment : notes.filter (fun p => p.2 != "ok") = [] := by decide
+
+section translated
+open Got.Model.MiniGoBytes (run St)
+open Got.Generated.AstIox Got.Lemmas.CodecAst
+
+theorem C11_translated_source_WriteBool_refines_model (b : Bool) (st : St) (fuel : Nat) (hf : 8 ≤ fuel) :
+    run table "OctetsWriter.WriteBool" fuel [.bool b] st = some (writeOut st (writeBool b)) :=
+  w_writeBool_ast b st fuel hf
+
+theorem C11_translated_source_WriteByte_refines_model (b : BitVec 8) (st : St) (fuel : Nat) (hf : 8 ≤ fuel) :
+    run table "OctetsWriter.WriteByte" fuel [.bv 8 false b] st = some (writeOut st (writeByte b)) :=
+  w_writeByte_ast b st fuel (by omega)
+
+theorem C11_translated_source_WriteInt16_refines_model (d : BitVec 16) (st : St) (fuel : Nat) (hf : 8 ≤ fuel) :
+    run table "OctetsWriter.WriteInt16" fuel [.bv 16 true d] st = some (writeOut st (writeInt16 d)) :=
+  w_writeInt16_ast d st fuel (by omega)
+
+/-- e.g. `byte(d>>24)` of the source: arithmetic shift of the signed 32-bit value, then truncation — for all 2^32 values -/
+theorem C11_translated_source_WriteInt32_refines_model (d : BitVec 32) (st : St) (fuel : Nat) (hf : 8 ≤ fuel) :
+    run table "OctetsWriter.WriteInt32" fuel [.bv 32 true d] st = some (writeOut st (writeInt32 d)) :=
+  w_writeInt32_ast d st fuel (by omega)
+
+theorem C11_translated_source_WriteInt64_refines_model (d : BitVec 64) (st : St) (fuel : Nat) (hf : 8 ≤ fuel) :
+    run table "OctetsWriter.WriteInt64" fuel [.bv 64 true d] st = some (writeOut st (writeInt64 d)) :=
+  w_writeInt64_ast d st fuel (by omega)
+
+/-- the loop `for num > 127 { WriteByte(byte(num | 0xFFFFFF80)); num >>= 7 }` of the source, all 2^32 values (loop
+    invariant, not enumeration) -/
+theorem C11_translated_source_Write7BitEncodedInt_refines_model (d : BitVec 32) (st : St) (fuel : Nat) (hf : 72 ≤ fuel) :
+    run table "OctetsWriter.Write7BitEncodedInt" fuel [.bv 32 true d] st = (write7 d).map (writeOut st) :=
+  w_write7_ast d st fuel hf
+
+/-- `stream.Write(buffer)`: appends the bytes, leaves the caller's slice as it was -/
+theorem C11_translated_source_Write_refines_model (data : List (BitVec 8)) (st : St) (fuel : Nat) (hf : 8 ≤ fuel) :
+    run table "OctetsStream.Write" fuel [.bytes data] st =
+      some (.ret [.err none] [some data] { st with buffer := st.buffer ++ writeRaw data }) :=
+  s_write_ast data st fuel (by omega)
+
+/-- WriteBytes = `Write7BitEncodedInt(int32(len(data)))` then `stream.Write(data)`, through the function table -/
+theorem C11_translated_source_WriteBytes_refines_model (data : List (BitVec 8)) (st : St) (fuel : Nat) (hf : 80 ≤ fuel) :
+    run table "OctetsWriter.WriteBytes" fuel [.bytes data] st = (writeBytes data).map (writeSliceOut st data) :=
+  w_writeBytes_ast data st fuel hf
+
+theorem C11_translated_source_WriteString_refines_model (data : List (BitVec 8)) (st : St) (fuel : Nat) (hf : 90 ≤ fuel) :
+    run table "OctetsWriter.WriteString" fuel [.bytes data] st = (writeString data).map (writeSliceOut st data) :=
+  w_writeString_ast data st fuel hf
+
+theorem C11_translated_source_ReadBool_refines_model (buf : List (BitVec 8)) (pos a : Nat) (fuel : Nat) (hf : 10 ≤ fuel) :
+    run table "OctetsReader.ReadBool" fuel [] ⟨buf, pos, a⟩ =
+      some (readOut .bool (.bool false) ⟨buf, pos, a⟩ (readBool buf pos)) :=
+  r_readBool_ast buf pos a fuel hf
+
+theorem C11_translated_source_ReadByte_refines_model (buf : List (BitVec 8)) (pos a : Nat) (fuel : Nat) (hf : 10 ≤ fuel) :
+    run table "OctetsReader.ReadByte" fuel [] ⟨buf, pos, a⟩ =
+      some (readOut (.bv 8 false) (.bv 8 false 0) ⟨buf, pos, a⟩ (readByte buf pos)) :=
+  r_readByte_ast buf pos a fuel (by omega)
+
+theorem C11_translated_source_ReadInt16_refines_model (buf : List (BitVec 8)) (pos a : Nat) (fuel : Nat) (hf : 10 ≤ fuel) :
+    run table "OctetsReader.ReadInt16" fuel [] ⟨buf, pos, a⟩ =
+      some (readOut (.bv 16 true) (.bv 16 true 0) ⟨buf, pos, a⟩ (readInt16 buf pos)) :=
+  r_readInt16_ast buf pos a fuel (by omega)
+
+/-- e.g. `int32(b[0]) | int32(b[1])<<8 | int32(b[2])<<16 | int32(b[3])<<24` on `b = buffer[position:]`, with the bounds check -/
+theorem C11_translated_source_ReadInt32_refines_model (buf : List (BitVec 8)) (pos a : Nat) (fuel : Nat) (hf : 10 ≤ fuel) :
+    run table "OctetsReader.ReadInt32" fuel [] ⟨buf, pos, a⟩ =
+      some (readOut (.bv 32 true) (.bv 32 true 0) ⟨buf, pos, a⟩ (readInt32 buf pos)) :=
+  r_readInt32_ast buf pos a fuel (by omega)
+
+theorem C11_translated_source_ReadInt64_refines_model (buf : List (BitVec 8)) (pos a : Nat) (fuel : Nat) (hf : 10 ≤ fuel) :
+    run table "OctetsReader.ReadInt64" fuel [] ⟨buf, pos, a⟩ =
+      some (readOut (.bv 64 true) (.bv 64 true 0) ⟨buf, pos, a⟩ (readInt64 buf pos)) :=
+  r_readInt64_ast buf pos a fuel (by omega)
+
+/-- the loop `for i := 0; i < 28; i += 7 { … num |= uint32(b&0x7F) << i … }` (shift by a variable) and the fifth-byte
+    epilogue, on arbitrary bytes -/
+theorem C11_translated_source_Read7BitEncodedInt_refines_model (buf : List (BitVec 8)) (pos a : Nat) (fuel : Nat)
+    (hf : 90 ≤ fuel) :
+    run table "OctetsReader.Read7BitEncodedInt" fuel [] ⟨buf, pos, a⟩ =
+      some (readOut (.bv 32 true) (.bv 32 true 0) ⟨buf, pos, a⟩ (read7 buf pos)) :=
+  r_read7_ast buf pos a fuel hf
+
+/-- **The property, stated of the translated source itself (7-bit integers).** For every int32 `d` and every stream: the
+    translated `Write7BitEncodedInt` returns nil and appends some bytes `bs` (1 to 5 of them: the unsigned LEB128 of the
+    32-bit pattern); and wherever those bytes stand in a stream — behind any `pre`, in front of any `rest` — the
+    translated `Read7BitEncodedInt` started at them returns `d`, nil and stops exactly behind them. -/
+theorem C11_translated_source_roundtrip_7bit (d : BitVec 32) (st : St) (pre rest : List (BitVec 8)) (a : Nat) (fuel : Nat)
+    (hf : 90 ≤ fuel) :
+    ∃ bs, bs = leb128 d.toNat ∧ 1 ≤ bs.length ∧ bs.length ≤ 5 ∧
+      run table "OctetsWriter.Write7BitEncodedInt" fuel [.bv 32 true d] st =
+        some (.ret [.err none] [none] { st with buffer := st.buffer ++ bs }) ∧
+      run table "OctetsReader.Read7BitEncodedInt" fuel [] ⟨pre ++ bs ++ rest, pre.length, a⟩ =
+        some (.ret [.bv 32 true d, .err none] [] ⟨pre ++ bs ++ rest, ((pre.length + bs.length : Nat) : Int), a⟩) := by
+  have hw := (C11_wire_7bit d)
+  obtain ⟨bs, hbs, hr⟩ := C11_roundtrip_7bit pre rest d
+  have e : bs = leb128 d.toNat := by
+    have := hw.1; rw [hw.2.1] at this; rw [hbs] at this; exact (Option.some.inj this)
+  refine ⟨bs, e, by rw [e]; exact hw.2.2.1, by rw [e]; exact hw.2.2.2, ?_, ?_⟩
+  · rw [w_write7_ast d st fuel (by omega), hbs]; rfl
+  · rw [r_read7_ast _ _ _ fuel hf, hr]; simp [readOut]
+
+/-- … and for fixed-width int32: the four bytes the translated `WriteInt32` appends are read back by the translated
+    `ReadInt32` as the same value, four bytes consumed -/
+theorem C11_translated_source_roundtrip_int32 (d : BitVec 32) (st : St) (pre rest : List (BitVec 8)) (a : Nat) (fuel : Nat)
+    (hf : 10 ≤ fuel) :
+    run table "OctetsWriter.WriteInt32" fuel [.bv 32 true d] st =
+        some (.ret [.err none] [none] { st with buffer := st.buffer ++ writeInt32 d }) ∧
+      run table "OctetsReader.ReadInt32" fuel [] ⟨pre ++ writeInt32 d ++ rest, pre.length, a⟩ =
+        some (.ret [.bv 32 true d, .err none] [] ⟨pre ++ writeInt32 d ++ rest, ((pre.length + 4 : Nat) : Int), a⟩) := by
+  refine ⟨w_writeInt32_ast d st fuel (by omega), ?_⟩
+  rw [r_readInt32_ast _ _ _ fuel (by omega), C11_roundtrip_int32 pre rest d]
+  simp [readOut, (C11_wire_int32 d).2.2]
+
+/-- non-vacuity: the generated terms really run — `Write7BitEncodedInt(300)` on an empty stream, then reading it back -/
+example : run table "OctetsWriter.Write7BitEncodedInt" 100 [.bv 32 true 300#32] ⟨[], 0, 0⟩ =
+    some (.ret [.err none] [none] ⟨[0xac#8, 0x02#8], 0, 0⟩) := by
+  rw [C11_translated_source_Write7BitEncodedInt_refines_model _ _ _ (by omega),
+    show write7 300#32 = some [0xac#8, 0x02#8] by decide]
+  rfl
+
+example : run table "OctetsReader.Read7BitEncodedInt" 100 [] ⟨[0xac#8, 0x02#8], 0, 0⟩ =
+    some (.ret [.bv 32 true 300#32, .err none] [] ⟨[0xac#8, 0x02#8], 2, 0⟩) := by
+  have h := C11_translated_source_Read7BitEncodedInt_refines_model [0xac#8, 0x02#8] 0 0 100 (by omega)
+  rw [show read7 [0xac#8, 0x02#8] 0 = ⟨.ok 300#32, 2, 0⟩ by decide] at h
+  simpa [readOut] using h
+
+/-- ReadBytes of the translated source: `Read7BitEncodedInt`, the three size checks, `make([]byte, size)` (counted in
+    `alloc`), `stream.Read(data)` through the function table with the element writes coming back to `data` -/
+theorem C11_translated_source_ReadBytes_refines_model (buf : List (BitVec 8)) (pos a : Nat) (fuel : Nat)
+    (hf : 120 ≤ fuel) (hp : pos ≤ buf.length) :
+    run table "OctetsReader.ReadBytes" fuel [] ⟨buf, pos, a⟩ =
+      some (readOut .bytes (.bytes []) ⟨buf, pos, a⟩ (readBytes buf pos)) :=
+  r_readBytes_ast buf pos a fuel hf hp
+
+theorem C11_translated_source_ReadString_refines_model (buf : List (BitVec 8)) (pos a : Nat) (fuel : Nat)
+    (hf : 130 ≤ fuel) (hp : pos ≤ buf.length) :
+    run table "OctetsReader.ReadString" fuel [] ⟨buf, pos, a⟩ =
+      some (readOut .bytes (.bytes []) ⟨buf, pos, a⟩ (readString buf pos)) :=
+  r_readString_ast buf pos a fuel hf hp
+
+/-- **The property, stated of the translated source itself (byte slices).** For every `data` shorter than 2^31 bytes: the
+    translated `WriteBytes` returns nil, leaves the caller's slice alone and appends `bs = leb128 (len data) ++ data`; and
+    wherever `bs` stands in a stream the translated `ReadBytes` started at it returns exactly `data`, nil, stops exactly
+    behind it and has passed exactly `len data` bytes to `make`. -/
+theorem C11_translated_source_roundtrip_bytes (data : List (BitVec 8)) (h : data.length < 2 ^ 31) (st : St)
+    (pre rest : List (BitVec 8)) (a : Nat) (fuel : Nat) (hf : 120 ≤ fuel) :
+    ∃ bs, bs = leb128 data.length ++ data ∧
+      run table "OctetsWriter.WriteBytes" fuel [.bytes data] st =
+        some (.ret [.err none] [some data] { st with buffer := st.buffer ++ bs }) ∧
+      run table "OctetsReader.ReadBytes" fuel [] ⟨pre ++ bs ++ rest, pre.length, a⟩ =
+        some (.ret [.bytes data, .err none] []
+          ⟨pre ++ bs ++ rest, ((pre.length + bs.length : Nat) : Int), a + data.length⟩) := by
+  obtain ⟨bs, hbs, hr⟩ := C11_roundtrip_bytes pre rest data h
+  have hw := C11_wire_bytes data h
+  have e : bs = leb128 data.length ++ data := by
+    have := hw.1; rw [hbs, hw.2.2] at this; exact Option.some.inj this
+  refine ⟨bs, e, ?_, ?_⟩
+  · rw [w_writeBytes_ast data st fuel (by omega), hbs]; rfl
+  · rw [r_readBytes_ast _ _ _ fuel hf (by simp), hr]; simp [readOut]
+
+end translated
